@@ -317,7 +317,15 @@ class Angle:
     def _eq(self, o):
         """theta == t for a constant t (in this angle's unit)"""
         if isinstance(o, Angle):
-            raise UnsupportedInShim('Angle == Angle')
+            if o is self:
+                return True
+            if (o.r, o.p) != (self.r, self.p):
+                raise UnsupportedInShim('Angle == Angle in different units')
+            dc, ds = self.c - o.c, self.s - o.s
+            if dc.iszero() and ds.iszero() and (self.lo, self.hi) == (o.lo, o.hi):
+                return True
+            zc = explore.ctx().zc
+            return explore.SymBool(z3.And(zc.cmp0(dc, '=='), zc.cmp0(ds, '==')))
         try:
             tlo, thi, q = self._threshold(o)
         except UnsupportedInShim:
